@@ -650,7 +650,9 @@ class Condition(ConditionLike):
                     if not result_i:
                         callable_false_i = True
 
-                except (TypeError, AttributeError):
+                except (TypeError, AttributeError, ZeroDivisionError, ValueError):
+                    # comparison not defined for this datum (e.g. modulo by zero, or a
+                    # `%` applied to a string datum, which is string formatting)
                     callable_error_i = True
 
             pre_processor_error.append(pre_processor_error_i)
